@@ -537,10 +537,32 @@ def rule_prov(prog, rep):
             rep.finding("C04.PROV", fn.name, "accessor", "accessor does not return field `%s`" % field, fn.loc())
 
 
+def rule_limitkind(prog, rep):
+    """C04.LIMITKIND: `a limit error is reported iff ..` is observed through Error::is_limit() (and the
+    compiler's ParserLimit / SyntaxError split), which is true only for errors built by
+    Error::limit.  So every error built where a limit is enforced - in limit_err, and at the sites
+    that turn the limit flag `accept_errors` off - comes from Error::limit on every path, whatever
+    the current token is (an Eof-specific constructor there makes the limit invisible when the input
+    ends right after the construct that exceeded it)."""
+    rep.floor("C04.LIMITKIND", 1)
+    le = prog.inline(prog.fn(r"^apollo_parser::parser::Parser::<'input>::limit_err$"), keep=r"Parser::<'input>::push_err$|error::Error::")
+    ctors = [c for c in le.live_calls() if re.search(r"^apollo_parser::error::Error::(limit|eof|with_loc|new)$", c.name)]
+    pushes = [c for c in le.live_calls() if re.search(r"Parser::<'input>::push_err$|Vec::<T, A>::push$", c.name)]
+    bad = [c for c in ctors if not c.name.endswith("Error::limit")]
+    ok = bool(pushes) and bool(ctors) and not bad and all("Error::limit(" in le.sym(p.args[1]) for p in pushes)
+    rep.obligation(ok)
+    if ok:
+        rep.instance("C04.LIMITKIND", "limit_err: the error pushed is built by Error::limit on every path (is_limit() holds whatever the current token is)")
+    else:
+        rep.finding("C04.LIMITKIND", le.name, "constructor",
+                    "limit_err builds its error with %s: an error that is not built by Error::limit has is_limit() == false, so the limit error is reported as an ordinary syntax error on that path (e.g. when the input ends right after the construct that exceeded the limit)" % (sorted(set(c.name.split("::")[-1] for c in bad)) or "no recognised constructor"), le.loc())
+
+
 def run(prog, rep):
     rule_pair(prog, rep)
     rule_cmp(prog, rep)
     rule_lexstop(prog, rep)
     rule_mute(prog, rep)
     rule_prov(prog, rep)
+    rule_limitkind(prog, rep)
     rep.assume("rowan/std behave as documented; cfg(test) code is outside the analysis")
